@@ -10,6 +10,7 @@ from __future__ import annotations
 
 import ast
 import copy
+from typing import Any
 
 from .model import FuncInfo
 
@@ -57,11 +58,16 @@ def stores(n: ast.AST) -> tuple[set[str], set[str]]:
     return strong, weak
 
 
+def _site(n: ast.AST) -> bool:
+    return KEEP_CALL[0] is not None and any(isinstance(x, ast.Call) and KEEP_CALL[0](x) for x in ast.walk(n))
+
+
 def _has_exit(n: ast.AST) -> bool:
     return any(isinstance(x, (ast.Return, ast.Raise, ast.Break, ast.Continue)) for x in ast.walk(n))
 
 
 KEEP_EXITS = [True]
+KEEP_CALL = [None]  # predicate on ast.Call: statements containing such a call are kept (sites of interest)
 
 
 def _slice_body(body: list[ast.stmt], need: set[str], self_calls_define: set[str]) -> tuple[list[ast.stmt], set[str]]:
@@ -85,7 +91,7 @@ def _slice_stmt(st: ast.stmt, need: set[str], scd: set[str]) -> tuple[ast.stmt |
         strong, weak = stores(st)
         if isinstance(st, ast.AnnAssign) and st.value is None:
             return None, need
-        if (strong | weak) & need:
+        if (strong | weak) & need or _site(st):
             val = st.value
             tgt_uses: set[str] = set()
             for t in (st.targets if isinstance(st, ast.Assign) else [st.target]):
@@ -105,7 +111,7 @@ def _slice_stmt(st: ast.stmt, need: set[str], scd: set[str]) -> tuple[ast.stmt |
         _strong, weak = stores(st)
         calls_self = any(isinstance(c, ast.Call) and isinstance(c.func, ast.Attribute) and isinstance(c.func.value, ast.Name) and
                          c.func.value.id == 'self' for c in ast.walk(st))
-        if weak & need or (calls_self and scd & need) or any(isinstance(x, (ast.Yield, ast.YieldFrom)) for x in ast.walk(st)):
+        if weak & need or (calls_self and scd & need) or any(isinstance(x, (ast.Yield, ast.YieldFrom)) for x in ast.walk(st)) or _site(st):
             return st, need | uses(st)
         return None, need
     if isinstance(st, ast.If):
@@ -119,18 +125,26 @@ def _slice_stmt(st: ast.stmt, need: set[str], scd: set[str]) -> tuple[ast.stmt |
         return None, need
     if isinstance(st, (ast.For, ast.While, ast.Try, ast.With)):
         strong, weak = stores(st)
-        if (strong | weak) & need or (_has_exit(st) and KEEP_EXITS[0]):
+        if isinstance(st, (ast.For, ast.While)) and not ((strong | weak) & need) and not (_has_exit(st) and KEEP_EXITS[0]) and _site(st):
+            # a loop kept only for the sites inside it: slice its body too
+            body, nb = _slice_body(st.body, set(need), scd)
+            new = copy.copy(st)
+            new.body = body or [ast.copy_location(ast.Pass(), st)]
+            return new, need | nb | uses(st.iter if isinstance(st, ast.For) else st.test)
+        if (strong | weak) & need or (_has_exit(st) and KEEP_EXITS[0]) or _site(st):
             return st, need | uses(st)
         return None, need
     if isinstance(st, (ast.Pass, ast.Import, ast.ImportFrom, ast.Global, ast.Nonlocal, ast.Assert, ast.Delete)):
         return None, need
     if isinstance(st, (ast.FunctionDef, ast.ClassDef)):
-        return (st, need) if st.name in need else (None, need)
+        if st.name in need:
+            return st, (need - {st.name}) | uses(st)  # a closure reads the enclosing frame's variables
+        return None, need
     return st, need | uses(st)
 
 
 def slice_function(fi: FuncInfo, want: set[str], self_calls_define: set[str] | None = None, name: str = 'slice',
-                   keep_exits: bool = True) -> FuncInfo:
+                   keep_exits: bool = True, keep_call: Any = None) -> FuncInfo:
     """The backward slice of `fi` for the variables `want` at every exit, as a synthetic function with the same parameters.
 
     `self_calls_define`: attributes that calls of methods on self may assign (those call statements are then kept when one of
@@ -139,10 +153,12 @@ def slice_function(fi: FuncInfo, want: set[str], self_calls_define: set[str] | N
     reaches the end, the wanted variables are ...".
     """
     KEEP_EXITS[0] = keep_exits
+    KEEP_CALL[0] = keep_call
     try:
         body, _need = _slice_body(list(fi.node.body), set(want), set(self_calls_define or ()))
     finally:
         KEEP_EXITS[0] = True
+        KEEP_CALL[0] = None
     node = copy.copy(fi.node)
     node.body = body or [ast.copy_location(ast.Pass(), fi.node)]
     return FuncInfo(fi.module, fi.qualname + '::' + name, node, fi.cls, fi.parent)
